@@ -764,9 +764,10 @@ def c17(ctx):
     for k, (u, v) in enumerate(ro.edge_target(w, CONFIG, "gitignore", False)):
         region = edge_region(w, u, v) | {v}
         r = q.view_reach(fx, w, region)
-        ok = not any(x.startswith("ignore::") for x in r)
+        built = sorted(x for x in r if x.startswith("ignore::gitignore::GitignoreBuilder"))
+        ok = not built
         obs.append(Ob("R-ORDER", mkkey("R-ORDER", WALKER, "gitignore=False", k, "no-matcher"), ok, w.loc(), WALKER,
-                      "with gitignore off no matcher is built: %s" % ok, None if ok else dict(reach=sorted(x for x in r if x.startswith("ignore::"))[:10])))
+                      "with gitignore off no matcher is built: %s" % ok, None if ok else dict(reach=built[:10])))
     # roles: rooted at, and reading .gitignore of, the source root
     import p_role
     ro_obs = [o for o in p_role.role_obs(fx) if "GitignoreBuilder" in o.key or "parse_ignore" in o.key]
@@ -1163,48 +1164,45 @@ def c12(ctx):
     COUNT_SOURCES = {"libfs::linux::copy_file_bytes", "libfs::linux::copy_file_offset",
                      "libfs::fallback::copy_file_bytes", "libfs::fallback::copy_file_offset"}
     ncop = 0
-    # evaluated on the role/closure views (a `copied(n)` convenience method or helper is inlined there); a
-    # construction site that no view contains is evaluated in its own function
-    cand = []
-    done_sites = set()
-    for lab, v_ in sorted(views.all_views(fx).items()):
-        cand.append((lab, v_, True))
-    for f in ro.fns_in_scope(fx, crates=("libxcp",)):
-        cand.append((f.path, f, False))
+    # evaluated on the role/closure views (a `copied(n)` convenience method, a helper or a combinator closure is
+    # inlined there); a construction site is judged where its function is inlined into its caller if such a view
+    # exists, else in its own function
+    cand = [(lab, v_, True) for lab, v_ in sorted(views.all_views(fx).items())]
+    cand += [(f.path, f, False) for f in ro.fns_in_scope(fx, crates=("libxcp",))]
+    per_site = {}
     for lab, f, is_view in cand:
         if lab.startswith("<libxcp::feedback::"):
             continue
-        k = 0
+        root = getattr(f, "inlined_from", None) or f.path
         for bi, b in enumerate(f.blocks):
             if b.get("cleanup"):
                 continue
             for s in b["stmts"]:
                 rv = s["rv"]
                 if rv["k"] == "agg" and rv.get("adt") == STATUS_UPDATE and rv["variant"] == "Copied":
-                    sid = (s["span"]["file"], s["span"]["line"], s["span"].get("col"), lab if is_view else "")
-                    if not is_view and any(x[:3] == sid[:3] for x in done_sites):
-                        continue
-                    if sid in done_sites:
-                        continue
-                    done_sites.add(sid)
-                    ncop += 1
+                    sid = (s["span"]["file"], s["span"]["line"], s["span"].get("col"))
                     l = op_local(rv["fields"][0])
                     const = "c" in rv["fields"][0]
                     atoms = []
                     if l is not None:
                         atoms, _f, _s = Prov(f, through_bin=True).origins(l)
-                    kinds = set((a.kind, a.what if a.kind == "call" else "") for a in atoms)
                     calls = set(a.what for a in atoms if a.kind == "call")
                     other = [a for a in atoms if a.kind in ("arg", "const", "agg")]
-                    # upvars of closures: captured requested length would show up as a field of _1 (arg)
                     ok = bool(calls) and calls <= COUNT_SOURCES and not other and not const
-                    obs.append(Ob("R-TABLE", mkkey("R-TABLE", views.label_of(lab) + ":" + lab.split("::")[-1], "StatusUpdate::Copied", k, "operand"), ok,
-                                  "%s:%d" % (s["span"]["file"], s["span"]["line"]), lab,
-                                  "Copied(x): x derives from %s%s" % (sorted(c.split("::")[-1] for c in calls),
-                                                                       "" if not other else " and %s" % [repr(a) for a in other][:3]),
-                                  None if ok else dict(origins=[repr(a) for a in atoms])))
-                    k += 1
-    if ncop < 2:
+                    inl = is_view and b.get("origin", root) != root
+                    per_site.setdefault(sid, []).append((inl, ok, lab, calls, other, atoms))
+    for k, (sid, evs) in enumerate(sorted(per_site.items())):
+        ncop += 1
+        use = [e for e in evs if e[0]] or evs
+        ok = all(e[1] for e in use)
+        bad = [e for e in use if not e[1]]
+        inl, _ok, lab, calls, other, atoms = (bad or use)[0]
+        obs.append(Ob("R-TABLE", mkkey("R-TABLE", "libxcp", "StatusUpdate::Copied", k, "operand"), ok,
+                      "%s:%d" % (sid[0], sid[1]), lab,
+                      "Copied(x): x derives from %s%s" % (sorted(c.split("::")[-1] for c in calls),
+                                                           "" if not other else " and %s" % [repr(a) for a in other][:3]),
+                      None if ok else dict(origins=[repr(a) for a in atoms])))
+    if ncop < 1:
         obs.append(anchor_ob("R-TABLE", "StatusUpdate::Copied construction sites (found %d)" % ncop))
     ctx.add(obs)
     # (d) incomplete => Error update or Err: error discipline in libxcp (incl. pool jobs)
